@@ -17,15 +17,22 @@ import json
 
 from . import common
 from . import extract_c05
+from . import trans_c05
 
 PROP = "C05"
 INFO = dict(
     technique="Lean 4 proof over an executable model of the Vectorizable protocol assembled per class through the "
-              "method-resolution table regenerated from the live classes, plus a heap model of copy() / attribute "
-              "rebinding / in-place writes whose per-class effects table is measured on instrumented live objects on "
-              "every run (5 `decide` obligations) + model/implementation correspondence (from_vector, the deprecated "
-              "from_vector_inplace, the n_channels / keep_channels options, dtypes) and an independent property oracle "
-              "on all 23 concrete Vectorizable classes",
+              "method-resolution table regenerated from the live classes; the vectorisation code itself (60 functions: "
+              "_as_vector / _from_vector_inplace / from_vector / n_parameters / _set_h_matrix / set_rotation_matrix of every "
+              "supplier, Vectorizable.as_vector / n_parameters / from_vector / from_vector_inplace, the target re-sync of "
+              "Targetable / Alignment, the image options) is TRANSLATED from the source text of the working tree into Lean "
+              "on every run (harness/trans_c05.py) and proved equal to the model, and the property theorems are re-stated "
+              "over the translated suppliers assembled through the regenerated tables; the same source text is read a "
+              "second time with a dtype vocabulary (34 functions) from which the model's dtype calculus is derived; plus a "
+              "heap model of copy() / attribute rebinding / in-place writes whose per-class effects table is measured on "
+              "instrumented live objects on every run (123 regenerated obligations in all) + model/implementation correspondence "
+              "(from_vector, the deprecated from_vector_inplace, the n_channels / keep_channels options, dtypes) and an "
+              "independent property oracle on all 23 concrete Vectorizable classes",
     level_text="Theorems over the model of as_vector / n_parameters / from_vector / from_vector_inplace for PointCloud "
                "and the 7 graph/mesh subclasses, Image / MaskedImage / BooleanImage and the 12 homogeneous transform "
                "classes: both round trips, vector length = n_parameters, every right-length vector accepted, carried "
@@ -40,10 +47,36 @@ INFO = dict(
                "only (ownership invariant on the writable buffers, by induction over the program).  The model is "
                "tied to /repo by the regenerated method-resolution table (dispatch_ok), by the effects table "
                "measured on live objects (effects_ok: buffers fresh in copy(), written in place, rebound, shared "
-               "between receiver and result) and by running every case through the real classes and the Lean "
-               "driver; a property oracle independent of the model decides the property on the real code.",
+               "between receiver and result), by the source-to-Lean translation and by running every case through the "
+               "real classes and the Lean driver; a property oracle independent of the model decides the property on the "
+               "real code.  TRANSLATED rather than transcribed (Generated/C05Src.lean, equalities in GenProps/C05Src.lean, "
+               "each for all arguments or for all square 3x3 / 4x4 matrices = the class invariant of the affine family): "
+               "Vectorizable.as_vector (incl. the cleared writeable flag: src_as_vector_read_only) / n_parameters / "
+               "from_vector / from_vector_inplace; PointCloud._as_vector / _from_vector_inplace / n_dims, "
+               "TexturedTriMesh.from_vector, Landmarkable.has_landmarks, copy_landmarks_and_path; Image._as_vector / "
+               "from_vector / _from_vector_inplace / n_channels / shape, MaskedImage.masked_pixels / _as_vector / from_vector "
+               "/ _from_vector_inplace / _set_masked_pixels (both branches, keep_channels, n_channels, both copy flags), "
+               "BooleanImage.from_vector; Homogeneous / Affine / Similarity / Translation / UniformScale / NonUniformScale "
+               "/ Rotation: n_dims, scale, n_parameters, _as_vector (Fortran-order deltas, the [0,1,4,5] selection, the K "
+               "matrix and the [3,0,1,2] permutation + sign convention of the quaternion), _from_vector_inplace (incl. the "
+               "quaternion formulas, the eps guard, the 3-D refusal of Similarity, the 2-D refusal of Rotation), "
+               "Homogeneous / Affine / AlignmentAffine._set_h_matrix, Rotation / AlignmentRotation.set_rotation_matrix, the "
+               "five AlignmentX parameter updates and the re-sync chain Targetable._sync_target_from_state -> "
+               "Alignment._new_target_from_state -> aligned_source, Targetable._target_setter_with_verification -> "
+               "_verify_target, Alignment._target_setter (which method re-syncs from what: sync_eq, xfFvi_src).  Method calls "
+               "that Python resolves through the MRO are parameters of the translated definitions; GenProps/C05SrcAsm.lean "
+               "ties the knot through Generated.dispatch / Generated.syncDispatch (xfFromVec_src, xfAsVec_src, "
+               "xfNParams_src, shapeFromVec_src, imgFromVec_src, imgFromVecN_src, imgAsVec_src, imgFvi_src) and proves "
+               "src_xf_from_as / src_xf_as_from / src_alignment_target_resynced / src_xf_rejected_or_wellformed / "
+               "src_shape_* / src_img_* / src_masked_vector_layout about the assembled translated code.  "
+               "Generated/C05SrcDt.lean + GenProps/C05SrcDt.lean: the dtype reading of the same functions and the derived "
+               "dtype calculus (e.g. MaskedImage_from_vector_dt: both branches build an array of the vector's dtype; "
+               "Similarity__from_vector_inplace_dt: a fresh float64 matrix whatever the receiver stored).",
     level_note="Trusted: Lean kernel; axioms propext/Classical.choice/Quot.sound; harness/extract_c05.py (table "
-               "extraction and the array instrumentation), the Python harness and oracle, the driver's parser.  numpy "
+               "extraction and the array instrumentation), the translator harness/py2lean2.py + py2lean2w.py and the C05 "
+               "vocabulary (harness/trans_c05.py rules -> Core/C05Src.lean operations: a rule that mistranslated a numpy "
+               "expression would make the obligation speak about something else; the correspondence runs on the same "
+               "functions), the Python harness and oracle, the driver's parser.  numpy "
                "`reshape` / boolean-mask indexing / `fill_diagonal` / broadcasting / dtype-of-construction semantics "
                "are modelled (exercised by the correspondence, not verified).  `np.linalg.eigh` is a contract "
                "parameter (symmetric input -> unit eigenvector of the largest eigenvalue), checked numerically on "
@@ -70,16 +103,27 @@ INFO = dict(
              "source, mask, everything else) and the suppliers to may-write / may-rebind sets; that abstraction is "
              "measured on three specimens per class (effects_ok), not on every input: on the other inputs receiver "
              "purity is decided by the byte-digest oracle",
-             "dtypes are modelled as a tag calculus (which construction idiom each supplier uses); the value of a "
-             "lossy cast (from_vector_inplace of a float vector into a partially masked integer image) is not "
-             "modelled and only its outcome, well-formedness and dtype are compared",
+             "dtypes: the calculus (which construction idiom each supplier uses: reshape of the vector / fresh np.eye / "
+             "assignment into the existing buffer / coercion to bool) is derived from the source text read with a dtype "
+             "vocabulary (fvi_dtype_src, fromVec_dtype_src, asVec_dtype_src: on every returning path, for every valuation "
+             "of the value-dependent tests, which are opaque guards there); the quaternion of Rotation._as_vector comes "
+             "out of eigh and is not read from the source; the value of a lossy cast (from_vector_inplace of a float "
+             "vector into a partially masked integer image) is not modelled and only its outcome, well-formedness and "
+             "dtype are compared",
              "from_vector_inplace, the n_channels / keep_channels / copy options and dtypes are not named by the "
-             "property text: they are proved in the model and tied by the correspondence (a disagreement is a broken "
-             "tie followed by the directed search), not judged by the property oracle"],
+             "property text: they are proved in the model and tied by the source translation (options, in-place "
+             "mutator) and the correspondence (a disagreement is a broken tie followed by the directed search), not "
+             "judged by the property oracle",
+             "the equalities translated = model are for all arguments except where the code only makes sense under the "
+             "class invariant: the affine-family _as_vector / n_parameters suppliers for square 3x3 / 4x4 matrices, the "
+             "re-sync for a target that is an affine image of the source, Image / BooleanImage.from_vector for receivers "
+             "of exactly that class without a mask, MaskedImage.from_vector for a mask with one entry per pixel (all "
+             "implied by wf and assumed by the property theorems anyway); values of numpy expressions are the vocabulary "
+             "of Core/C05Src.lean (modelled, exercised by the correspondence)"],
     assumptions=["objects are built through the public constructors from small dyadic data (general position for "
                  "alignment sources)"],
     design_ref="DESIGN.md section 6, C05; section 7 #2-#5")
-IMPORTS = ["MenpoModel.Props.C05", "MenpoModel.GenProps.C05"]
+IMPORTS = ["MenpoModel.Props.C05", "MenpoModel.GenProps.C05"] + trans_c05.IMPORTS
 THEOREMS = [
     "MenpoModel.C05.shape_from_as", "MenpoModel.C05.shape_as_from", "MenpoModel.C05.shape_carried",
     "MenpoModel.C05.shape_wrong_length_fixed", "MenpoModel.C05.shape_wrong_length_coded_refuted",
@@ -109,7 +153,7 @@ THEOREMS = [
     "MenpoModel.C05.GenProps.dispatch_ok", "MenpoModel.C05.GenProps.dispatch_count",
     "MenpoModel.C05.GenProps.dispatch_pure", "MenpoModel.C05.GenProps.effects_ok",
     "MenpoModel.C05.GenProps.effects_pure",
-]
+] + trans_c05.THEOREMS
 
 SHAPES = ["PointCloud", "PointUndirectedGraph", "PointDirectedGraph", "PointTree", "LabelledPointUndirectedGraph",
           "TriMesh", "ColouredTriMesh", "TexturedTriMesh"]
@@ -1429,6 +1473,22 @@ def generated(ctx):
     rows = extract_c05.table()
     ctx.notes["dispatch_rows"] = len(rows)
     ctx.notes["effects_rows"] = {n: r for n, r in extract_c05.effects()}
+    # the vectorisation code itself, translated from the source text of the working tree; a function the vocabulary
+    # has no words for is emitted as a stub whose equality obligation cannot be proved (a broken obligation, like a
+    # failed equality proof: followed by the directed search, never an infrastructure error)
+    files2, reasons = trans_c05.generated_files()
+    nb = len(ctx.broken_obligations)
+    ok2 = common.build_generated(ctx, files2, trans_c05.GEN_TARGETS, trans_c05.N_OBLIGATIONS)
+    ctx.count("translated-source:" + ("ok" if ok2 else "BROKEN"))
+    ctx.notes["translated_functions"] = trans_c05.n_translated()
+    ctx.notes["untranslatable"] = reasons
+    ctx._c05_suspects = []
+    if not ok2:
+        b = ctx.broken_obligations[nb]
+        where = trans_c05.failing(b.get("output_tail", "") + "\n".join(b.get("errors", [])))
+        b["failing_declarations"] = ["%s:%d %s" % w for w in where]
+        b["untranslatable"] = reasons
+        ctx._c05_suspects = trans_c05.classes_of([w[2] for w in where] + [r.split(":")[0] for r in reasons])
 
 
 def prepare(ctx):
@@ -1437,8 +1497,9 @@ def prepare(ctx):
     covers the hand-written theorems only, since GenProps/C05.olean does not exist then."""
     generated(ctx)
     if ctx.broken_obligations:
+        gen = set(trans_c05.THEOREMS)
         imports = [m for m in IMPORTS if "GenProps" not in m]
-        theorems = [t for t in THEOREMS if ".GenProps." not in t]
+        theorems = [t for t in THEOREMS if ".GenProps." not in t and t not in gen]
     else:
         imports, theorems = IMPORTS, THEOREMS
     common.prepare_lean(ctx, PROP, imports, theorems)
@@ -1458,6 +1519,11 @@ def search(ctx):
         if c in order:
             order.remove(c)
             order.insert(0, c)
+    # the classes whose translated supplier no longer equals the model (and their alignment / plain counterparts) first
+    for c in reversed(getattr(ctx, "_c05_suspects", [])):
+        for k in [k for k in ALL if k == c or k == "Alignment" + c or "Alignment" + k == c]:
+            order.remove(k)
+            order.insert(0, k)
     for rnd in range(ctx.n(40, 120)):
         for c in order:
             rc = gen_recipe(rng, c)
